@@ -8,6 +8,7 @@ import (
 	"bytes"
 	"encoding/json"
 	"fmt"
+	"github.com/trustbloc/sidetree-core-go/pkg/document"
 	"strings"
 	"testing"
 
@@ -344,11 +345,15 @@ type LFCase struct {
 func evalLF(c *LFCase) (string, string) {
 	h := handlerFor(uint(c.Code))
 	var err error
-	if p := ev.Catch(func() { _, err = h.ResolveDocument(c.DID) }); p != "" {
+	var rr *document.ResolutionResult
+	if p := ev.Catch(func() { rr, err = h.ResolveDocument(c.DID) }); p != "" {
 		return "C08/long-form-panic", "ResolveDocument panicked on " + ev.Trunc(c.DID, 300) + ": " + p
 	}
 	if c.Resolve && err != nil {
 		return "C08/valid-long-form-rejected", fmt.Sprintf("canonical, self-certifying long-form DID does not resolve (%s): %v", c.Note, err)
+	}
+	if c.Resolve && (rr == nil || rr.Document == nil) {
+		return "C08/valid-long-form-rejected", fmt.Sprintf("canonical, self-certifying long-form DID does not resolve (%s): ResolveDocument returned neither a document nor an error", c.Note)
 	}
 	if !c.Resolve && err == nil {
 		return "C08/altered-long-form-resolved", fmt.Sprintf("long-form DID with altered initial state resolved (%s): %s", c.Note, ev.Trunc(c.DID, 400))
